@@ -1,20 +1,20 @@
 (* C09 (strip part) - strip_ignored_characters.  Theorems only; proofs in Lang/StripProps.v.
    Model: Lang/Strip.v (strip, written from utilities/strip_ignored_characters.py) over the lexer model
-   Lang/Lexer.v and the block-string printer Lang/BlockString.v.
-   [scalars s]: the source is a list of Unicode scalar values (no surrogate code points). *)
+   Lang/Lexer.v and the block-string printer Lang/BlockString.v.  No hypothesis on the source text:
+   every list of code points, lone surrogates and surrogate pairs included. *)
 From GV Require Import Base.Prelude Lang.Lexer Lang.LexerProps Lang.BlockString Lang.BlockStringProps
-  Lang.Strip Lang.StripProps Lang.Ast Lang.Parser Lang.ParserProps Properties.ParserThms.
+  Lang.StripBlock Lang.Strip Lang.StripProps Lang.Ast Lang.Parser Lang.ParserProps Properties.ParserThms.
 
 (* (a) every source that lexes is stripped to a text that lexes, and the significant tokens of the
    two agree in kind and value (their spans differ) *)
-Theorem C09_strip_preserves_tokens : forall s ts, scalars s -> lex s = Ok ts ->
+Theorem C09_strip_preserves_tokens : forall s ts, lex s = Ok ts ->
   exists out ts2, strip s = Ok out /\ lex out = Ok ts2 /\
     map tok_sig (significant ts2) = map tok_sig (significant ts).
 Proof. exact strip_preserves_tokens. Qed.
 Print Assumptions C09_strip_preserves_tokens.
 
 (* (b) stripping is idempotent *)
-Theorem C09_strip_idempotent : forall s out, scalars s -> strip s = Ok out -> strip out = Ok out.
+Theorem C09_strip_idempotent : forall s out, strip s = Ok out -> strip out = Ok out.
 Proof. exact strip_idempotent. Qed.
 Print Assumptions C09_strip_idempotent.
 
@@ -30,33 +30,39 @@ Print Assumptions C09_strip_accepts.
 
 (* (d) the stripped text is tight (Strip.tight): its tokens - none a comment - are laid out as
    sep lexeme sep lexeme ... lexeme with no ignored character before the first or after the last
-   lexeme, and each sep is exactly the separator of the rule: one SPACE between two non-punctuators
-   or between a non-punctuator and a spread, nothing otherwise *)
-Theorem C09_strip_tight : forall s out, scalars s -> strip s = Ok out ->
+   lexeme, each sep is exactly the separator of the rule (one SPACE between two non-punctuators or
+   between a non-punctuator and a spread, nothing otherwise), and the lexeme of every token other than
+   a quoted string or a block string contains no ignored character *)
+Theorem C09_strip_tight : forall s out, strip s = Ok out ->
   exists ts2, lex out = Ok ts2 /\ tight false 0 out ts2.
 Proof. exact strip_tight. Qed.
 Print Assumptions C09_strip_tight.
 
 (* consequence of (a) with the parser's layout independence: the stripped text parses to the same
    tree with the same token count, or both are rejected (all entry points that use this lexer) *)
-Theorem C09_strip_preserves_parse : forall e o s out, e <> ECoordinate -> scalars s -> strip s = Ok out ->
+Theorem C09_strip_preserves_parse : forall e o s out, e <> ECoordinate -> strip s = Ok out ->
   (forall d c, parse_text e o s = Ok (d, c) <-> parse_text e o out = Ok (d, c)) /\
   ((exists p, parse_text e o s = SyntaxErr p) <-> (exists p, parse_text e o out = SyntaxErr p)).
 Proof.
-  intros e o s out He Hsc H. destruct (strip_ok_lex s out H) as (ts & Hl).
-  destruct (strip_preserves_tokens s ts Hsc Hl) as (out1 & ts2 & H1 & H2 & H3).
+  intros e o s out He H. destruct (strip_ok_lex s out H) as (ts & Hl).
+  destruct (strip_preserves_tokens s ts Hl) as (out1 & ts2 & H1 & H2 & H3).
   assert (out1 = out) by congruence. subst out1.
   exact (parser_text_layout_independent e o s out ts ts2 He Hl H2 (eq_sym H3)).
 Qed.
 Print Assumptions C09_strip_preserves_parse.
 
 (* non-vacuity: comment, commas, CR LF, BOM, a block string that is re-printed, a number before a
-   spread; the result is a fixed point and has the same significant tokens *)
+   spread *)
 Example C09_strip_example :
   let s := [65279; 123; 97; 35; 120; 13; 10; 44; 34; 34; 34; 10; 32; 32; 120; 10; 34; 34; 34; 32; 49; 32; 46; 46; 46; 98; 125] in
-  scalars s /\
   strip s = Ok [123; 97; 32; 34; 34; 34; 120; 34; 34; 34; 32; 49; 32; 46; 46; 46; 98; 125] /\
   match lex s with Ok ts => length (significant ts) = 8%nat | _ => False end.
 Proof.
-  cbv zeta. split; [repeat constructor|]. split; vm_compute; reflexivity.
+  cbv zeta. split; vm_compute; reflexivity.
 Qed.
+
+(* a block string with a surrogate pair (U+D83D U+DE00 as two code points) and indentation *)
+Example C09_strip_example_pair :
+  strip [34; 34; 34; 10; 32; 32; 55357; 56832; 10; 32; 32; 32; 97; 10; 34; 34; 34; 35]
+  = Ok [34; 34; 34; 10; 55357; 56832; 10; 32; 97; 34; 34; 34].
+Proof. vm_compute. reflexivity. Qed.
